@@ -1,7 +1,33 @@
-/* Slot types beyond BN/BUF (field elements, points, ...). Filled in per module. */
+/* Registry of slot types beyond BN/BNV/BUF. A module registers its types from a constructor:
+ *   VS_TYPE(VT_FB, fb_new_fn, fb_dump_fn, fb_free_fn, fb_hash_fn)
+ * so that adding a type never touches a shared file. */
 #include "vs.h"
 
-int vs_new_obj_ext(vs_slot *s, int type, vs_rd *r) { (void)s; (void)type; (void)r; return -1; }
-int vs_dump_obj_ext(const vs_slot *s, vs_wr *w) { (void)s; (void)w; return -1; }
-int vs_free_obj_ext(vs_slot *s) { (void)s; return -1; }
-int vs_hash_obj_ext(const vs_slot *s, uint64_t *h) { (void)s; (void)h; return -1; }
+static vs_type_ops types[64];
+
+void vs_register_type(int type, vs_type_ops ops) {
+	if (type <= 0 || type >= 64) vs_die("bad type id");
+	types[type] = ops;
+}
+
+int vs_new_obj_ext(vs_slot *s, int type, vs_rd *r) {
+	if (type <= 0 || type >= 64 || !types[type].mk) return -1;
+	int rc = types[type].mk(s, r);
+	if (rc == 0) s->type = type;
+	return rc;
+}
+int vs_dump_obj_ext(const vs_slot *s, vs_wr *w) {
+	if (!types[s->type].dump) return -1;
+	types[s->type].dump(s, w);
+	return 0;
+}
+int vs_free_obj_ext(vs_slot *s) {
+	if (!types[s->type].fr) return -1;
+	types[s->type].fr(s);
+	return 0;
+}
+int vs_hash_obj_ext(const vs_slot *s, uint64_t *h) {
+	if (!types[s->type].hash) return -1;
+	*h = types[s->type].hash(s);
+	return 0;
+}
